@@ -38,3 +38,11 @@ from . import util_init         # noqa
 from . import fits              # noqa
 from . import constraints_c     # noqa
 from . import supervised        # noqa
+from . import c16_calibration   # noqa
+
+
+# every contract contributes a unit to each property it is tagged with (prop=[...])
+from npvc.contracts import REGISTRY as _REG
+for _key, _con in list(_REG.items()):
+  for _p in (_con.prop or []):
+    unit(_p, _key)
